@@ -148,7 +148,26 @@ def _c09_cleared_terminal(case, mm):
             ref = RefRun(case["prog"], stop_at=i).run()
             if s["h"] in ref.env and L in ref.env and ref.tok(L) in ref.D.get(ref.tok(s["h"]), frozenset()):
                 return True
+            if s["h"] in ref.env and s["h"] in _downstream_of(stmts[:i], L, ref):
+                return True  # also through constant tensors (an in-place target keeps its constant flag, yet its
+                #              creator then names the written value, and clearing walks every creator)
     return False
+
+
+def _downstream_of(stmts, L, ref):
+    """handles whose value was computed from L by the given statements - through op arguments and through values
+    written in place into any member of a memory family - regardless of constant flags"""
+    owner = ref.owner
+    fam = {owner.get(L, L)}
+    out = {L}
+    for s in stmts:
+        if s["k"] == "op" and any(a in out or owner.get(a) in fam for a in s["args"]):
+            out.add(s["h"])
+            if owner.get(s["h"]) == s["h"]:
+                fam.add(s["h"])
+        elif s["k"] == "inplace" and any(a in out or owner.get(a) in fam for a in s.get("args", [])):
+            fam.add(owner.get(s["target"], s["target"]))
+    return {h for h in owner if h in out or owner[h] in fam}
 
 
 @predicate("C05-write-through-constant-view")
